@@ -1,5 +1,189 @@
-(* Eval06.v — evaluation of C06 observations (stub: replaced when C06 is built). *)
-From Verif Require Import Base Sexp.
+(* Eval06.v — evaluation of C06 observations.
+
+     (gs TY VAL TEXT RT)    TEXT = the text returned by the real deriveGoString(VAL), parsed by the
+                            harness (GoStr/Match.v) or `unparsed`;  RT = the value of that text
+                            compiled and evaluated in a second program (stage 2), serialised by the
+                            driver runtime, or `nocompile` / `missing`.
+     (sup-gs TY CLASS)      goderive's answer for a type whose fields are all exported.
+
+   model_ok = TEXT is exactly the model's expression (S) and RT is what the model's evaluator
+              computes, up to addresses (B) - where the evaluator rejects the text (outside the
+              guard: infinite floats, unexported fields) the Go compiler must reject it too;
+   spec_ok  = RT is structurally equal (C02's spec_eq) to VAL: the round trip. *)
+From Coq Require Import String.
+From Verif Require Import Base Sexp Go.Ty Go.Val Go.Equal GoStr.Model GoStr.Geval GoStr.Match.
 Open Scope string_scope.
 
-Definition eval06 (e : sexp) : verdict := bad_line.
+(* ---------- printers (for the replay file) ---------- *)
+Definition kind_sexp (k : bkind) : sexp :=
+  match k with
+  | KBool => Sym "bool" | KF32 => Sym "f32" | KF64 => Sym "f64" | KC64 => Sym "c64" | KC128 => Sym "c128"
+  | KStr => Sym "string"
+  | KInt w s => L [Sym "int"; Num (Z.of_N w); of_bool s]
+  end.
+
+Fixpoint ty_sexp (t : ty) : sexp :=
+  match t with
+  | TB k => kind_sexp k
+  | TN id x u => L [Sym "named"; of_nat id; of_bool x; ty_sexp u]
+  | TRef id => L [Sym "ref"; of_nat id]
+  | TP t' => L [Sym "ptr"; ty_sexp t']
+  | TSl t' => L [Sym "slice"; ty_sexp t']
+  | TAr n t' => L [Sym "array"; of_nat n; ty_sexp t']
+  | TM k v => L [Sym "map"; ty_sexp k; ty_sexp v]
+  | TSt fs => L (Sym "struct" :: map (fun f => L [of_bool (fst f); ty_sexp (snd f)]) fs)
+  end.
+
+Fixpoint val_sexp (v : val) : sexp :=
+  match v with
+  | VBool b => L [Sym "b"; of_bool b]
+  | VInt z => L [Sym "i"; Num z]
+  | VF n m => L [Sym "f"; of_bool n; Num (Z.of_N m)]
+  | VC a b c d => L [Sym "c"; of_bool a; Num (Z.of_N b); of_bool c; Num (Z.of_N d)]
+  | VStr s => L (Sym "s" :: map (fun b => Num (Z.of_N b)) s)
+  | VNilP => Sym "nilp"
+  | VPtr l x => L [Sym "p"; Num (Z.of_N l); val_sexp x]
+  | VNilS => Sym "nils"
+  | VSl l es sp => L [Sym "sl"; Num (Z.of_N l); L (map val_sexp es); L (map val_sexp sp)]
+  | VNilM => Sym "nilm"
+  | VMap l kvs => L [Sym "m"; Num (Z.of_N l); L (map (fun kv => L [val_sexp (fst kv); val_sexp (snd kv)]) kvs)]
+  | VArr es => L (Sym "a" :: map val_sexp es)
+  | VSt fs => L (Sym "st" :: map val_sexp fs)
+  end.
+
+Definition fnum (n : bool) (m : N) : sexp :=
+  L [Sym "num"; of_bool n; Num 0; Num 0; Num (Z.of_N m); Num (Z.of_N m)].
+
+Definition scalar_sexp (v : val) : sexp :=
+  match v with
+  | VBool b => L [Sym "bool"; of_bool b]
+  | VInt z => L [Sym "num"; of_bool (z <? 0)%Z; Num 1; Num (Z.abs z); Sym "_"; Sym "_"]
+  | VF n m => fnum n m
+  | VC a b c d => L [Sym "cplx"; fnum a b; fnum c d]
+  | VStr s => L (Sym "str" :: map (fun b => Num (Z.of_N b)) s)
+  | _ => Sym "?"
+  end.
+
+Definition lit_sexp (l : glit) : sexp :=
+  match l with
+  | LScalar _ v => scalar_sexp v
+  | LSeq _ a _ es => L (Sym "seq" :: ty_sexp a :: map scalar_sexp es)
+  | LMap a _ _ kvs => L (Sym "mapl" :: ty_sexp a :: map (fun kv => L [scalar_sexp (fst kv); scalar_sexp (snd kv)]) kvs)
+  end.
+
+Definition head_sexp (h : ghead) : sexp :=
+  match h with
+  | HNone => Sym "none"
+  | HAddr a => L [Sym "addr"; ty_sexp a]
+  | HNew a => L [Sym "new"; ty_sexp a]
+  | HMakeSl a n => L [Sym "mksl"; ty_sexp a; of_nat n]
+  | HMakeMap a => L [Sym "mkmap"; ty_sexp a]
+  | HArr a => L [Sym "arr"; ty_sexp a]
+  end.
+
+Definition ret_sexp (r : gret) : sexp :=
+  match r with
+  | RNil => Sym "nil" | RThis => Sym "this" | RDeref => Sym "deref"
+  | RAddr0 a => L [Sym "addr0"; ty_sexp a]
+  | RLit l => L [Sym "lit"; lit_sexp l]
+  end.
+
+Fixpoint gexpr_sexp (g : gexpr) : sexp :=
+  match g with
+  | GLit l => lit_sexp l
+  | GPtrLit k v => L [Sym "ptrlit"; kind_sexp k; scalar_sexp v]
+  | GClo rt hd body ret =>
+      L [Sym "clo"; ty_sexp rt; head_sexp hd;
+         L (map (fun s =>
+                   match fst s with
+                   | TgField i => L [Sym "setf"; of_nat i; gexpr_sexp (snd s)]
+                   | TgDeref => L [Sym "setd"; gexpr_sexp (snd s)]
+                   | TgIdx i => L [Sym "seti"; of_nat i; gexpr_sexp (snd s)]
+                   | TgKeyLit _ v => L [Sym "setkl"; scalar_sexp v; gexpr_sexp (snd s)]
+                   | TgDeclKey j => L [Sym "key"; of_nat j; gexpr_sexp (snd s)]
+                   | TgKeyVar j => L [Sym "setkv"; of_nat j; gexpr_sexp (snd s)]
+                   end) body);
+         ret_sexp ret]
+  end.
+
+(* coverage tag: the arm of genStatement at the root and the shape of the value *)
+Definition root_tag (t : ty) (v : val) : string :=
+  match resolve [] t with
+  | None => "stuck"
+  | Some r =>
+      (if is_named r then "named-" else "") ++
+      match r_node r, v with
+      | TB KStr, _ => "string" | TB KBool, _ => "bool" | TB (KInt _ true), _ => "int" | TB (KInt _ false), _ => "uint"
+      | TB (KF32 | KF64), _ => "float" | TB _, _ => "complex"
+      | TP _, VNilP => "ptr/nil"
+      | TP rt, _ => match resolve (r_env r) rt with
+                    | Some rr => match r_node rr with
+                                 | TSt [] => "ptr/empty-struct" | TSt _ => "ptr/struct"
+                                 | TB _ => "ptr/basic" | TP _ => "ptr/ptr" | _ => "ptr/container"
+                                 end
+                    | None => "stuck"
+                    end
+      | TSt _, _ => "struct"
+      | TSl _, VNilS => "slice/nil"
+      | TSl et, VSl _ es _ =>
+          (match lit_basic et with Some _ => "slice/lit" | None => "slice/elems" end)
+          ++ match es with [] => "/empty" | _ => "" end
+      | TAr _ et, _ => match lit_basic et with Some _ => "array/lit" | None => "array/elems" end
+      | TM _ _, VNilM => "map/nil"
+      | TM kt vt, VMap _ kvs =>
+          (match lit_basic kt, lit_basic vt with
+           | Some _, Some _ => "map/lit" | Some _, None => "map/litkey" | None, _ => "map/keyvar" end)
+          ++ match kvs with [] => "/empty" | _ => "" end
+      | _, _ => "stuck"
+      end
+  end.
+
+Definition sp_true (o : option bool) : bool := match o with Some true => true | _ => false end.
+
+Definition eval06 (e : sexp) : verdict :=
+  match e with
+  | L [Sym k; tys; vs; text; rts] =>
+      if String.eqb k "gs" then
+        match parse_ty tys, parse_val vs with
+        | Some t, Some v =>
+            let typed := has_type [] t v in
+            let guard := (typed && exp_only t && finite [] t v)%bool in
+            let rt := parse_val rts in
+            let m := gostring_model t v in
+            let mv := match m with Ok g => gostring_eval t g | _ => None end in
+            let s_ok := match m with Ok g => gmatch g text | _ => false end in
+            let b_ok := match mv, rt with
+                        | Some a, Some b => sp_true (spec_eq [] t a b)
+                        (* the evaluator rejects the text: so must the Go compiler *)
+                        | None, None => sym_is "nocompile" rts
+                        | _, _ => false
+                        end in
+            {| v_known := typed;
+               v_model_ok := (s_ok && b_ok)%bool;
+               v_spec_ok := match rt with Some b => sp_true (spec_eq [] t v b) | None => false end;
+               v_guard := guard;
+               v_model := L [Sym (if s_ok then "text-ok" else "text-differs");
+                             match m with Ok g => gexpr_sexp g | Unsup => Sym "unsupported" | _ => Sym "stuck" end;
+                             match mv with Some a => val_sexp a | None => Sym "no-value" end];
+               v_tag := root_tag t v |}
+        | _, _ => bad_line
+        end
+      else bad_line
+  | L [Sym k; tys; Sym cls] =>
+      if String.eqb k "sup-gs" then
+        match parse_ty tys with
+        | Some t =>
+            let g := exp_only t in
+            let real_ok := String.eqb cls "ok" in
+            (* a crash or hang of the generator is C09's subject *)
+            let crash := (String.eqb cls "panic" || String.eqb cls "timeout")%bool in
+            let ok := (crash || negb g || real_ok)%bool in
+            {| v_known := true; v_model_ok := ok; v_spec_ok := ok; v_guard := g;
+               v_model := Sym (if g then "ok" else "not-judged");
+               v_tag := "support/" ++ (if crash then "generator-crash-see-C09"
+                                       else if g then "exported-only" else "has-unexported-fields") |}
+        | None => bad_line
+        end
+      else bad_line
+  | _ => bad_line
+  end.
